@@ -603,6 +603,8 @@ def p_arange(itp, name, args, kw, node, st):
     n = (hi - lo) if (lo is not None and hi is not None and len(args) <= 2) else None
     r = Num(zero_deg(), (n,), False, taint=taints(*args))
     r.nonneg = lo is not None and bool(lo.nonneg())
+    if lo is not None and (len(args) <= 2):
+        r.org = -lo          # index of the element whose value is 0 (value = lo + index)
     return r
 
 
@@ -717,7 +719,7 @@ def p_insert(itp, name, args, kw, node, st):
     r.ex = None
     r.taint = taints(*args)
     r.cplx = None if (a.cplx is None or v.cplx is None) else (a.cplx or v.cplx)
-    itp.events.append(('insert', node, args[1], a.shape, v))
+    itp.events.append(('insert', node, args[1], a.shape, v, a, itp.cur.qname if itp.cur else ''))
     return r
 
 
@@ -890,6 +892,10 @@ def p_bilinear(itp, name, args, kw, node, st):
     elif base in ('convolve', 'correlate'):
         if sa and sb and len(sa) == 1 and len(sb) == 1 and sa[0] is not None and sb[0] is not None:
             r.shape = (sa[0] + sb[0] - 1,)
+            mode = kw.get('mode', args[2] if len(args) > 2 else Const('full' if base == 'convolve' or name.startswith('scipy') else 'valid'))
+            if base == 'correlate' and isinstance(mode, Const) and mode.v == 'full':
+                r.org = sb[0] - 1          # correlate(x, y, 'full'): lag 0 at index len(y)-1
+                USED.add("correlate(x, y, 'full') has 2N-1 values with lag 0 at index len(y)-1")
         else:
             r.shape = (None,)
     else:
